@@ -484,6 +484,10 @@ class SymExec:
                 cand = "<%s as std::convert::From<%s>>::from" % (ra[1], ra[0])
                 if cand in self.fb.bodies:
                     name = cand
+        # `X::default()` where the crate names that very call `X::randomized()`: one spelling
+        if name in getattr(self.fb, "named_as", {}) and self.fn != self.fb.named_as[name]:
+            name = self.fb.named_as[name]
+            t = dict(t, resolved=name, callee=name)
         # `<[u8; 20]>::from(generic_array)` / `GenericArray::from([u8; 20])`: the conversion `into()`
         # resolves to, named directly - the same bytes
         if GA_FROM.match(name) and len(args) == 1:
